@@ -988,6 +988,16 @@ func TestCoordinator(t *testing.T) {
 		reported = append(reported, key)
 		exit = 1
 	}
+	if exit == 0 && c.stopFlag && len(unstable) > 0 && os.Getenv("VERIF_SECOND_PASS") == "" {
+		// the run was cut short by a violation that then did not reproduce: what lies behind it was never
+		// explored. Run the whole check again, this time without stopping at the first violation.
+		fmt.Println("NOTE: stopped at a violation that did not reproduce; running the whole check again without fail-fast")
+		os.Setenv("VERIF_SECOND_PASS", "1")
+		os.Setenv("VERIF_NOFAILFAST", "1")
+		if err := syscall.Exec(os.Args[0], os.Args, os.Environ()); err != nil {
+			fmt.Println("HARNESS-NOTE: second pass could not be started:", err)
+		}
+	}
 	if c.counters["capped_scenarios"] > 0 {
 		c.exhaustive = false
 	}
